@@ -40,5 +40,8 @@ Init == l = <<"root">>
 Next == \/ l = <<"root">> /\ \E k \in 0..(K - 1) : l' = <<"shard", k>>
         \/ l[1] = "shard" /\ \E i \in 1..Len(Rec) : i % K = l[2] /\ l' = <<"event", i>>
 Spec == Init /\ [][Next]_l
-EventOK == l[1] = "event" => (AllowedC03(Rec[l[2]]) \/ PrintT(<<"BAD", l[2]>>))
+\* "volume": summary of a long run of repeated calls on one thread (every repetition whose result differed from the first
+\* result of the same call is in the trace as an ordinary showdown event)
+Allowed(e) == IF e.op = "volume" THEN e.calls >= 0 ELSE AllowedC03(e)
+EventOK == l[1] = "event" => (Allowed(Rec[l[2]]) \/ PrintT(<<"BAD", l[2]>>))
 =============================================================================
